@@ -426,3 +426,317 @@ Section Total.
     exists t. split; [exact Ht|]. apply tp_tokens_ok. exact Hn.
   Qed.
 End Total.
+
+(** ** soundness of the boolean checks w.r.t. the Prop classes *)
+Lemma ident_okb_lexb x : ident_okb x = true -> ident_lexb x = true.
+Proof.
+  unfold ident_okb. intros H. apply andb_prop in H as [H _]. apply andb_prop in H as [H _]. exact H.
+Qed.
+
+Lemma forallb_impl {A} (f g : A -> bool) l :
+  (forall x, f x = true -> g x = true) -> forallb f l = true -> forallb g l = true.
+Proof.
+  intros Hfg H. rewrite forallb_forall in *. intros x Hx. apply Hfg. apply H. exact Hx.
+Qed.
+
+Lemma prelude_names_ident : forallb ident_okb prelude_names = true.
+Proof. vm_compute. reflexivity. Qed.
+
+Lemma prelude_name_okb i : existsb (String.eqb i) prelude_names = true -> ident_okb i = true.
+Proof.
+  intros H. apply existsb_exists in H as (x & Hx & E). apply String.eqb_eq in E; subst.
+  pose proof prelude_names_ident as P. rewrite forallb_forall in P. auto.
+Qed.
+
+(** the two shapes an entry of a well-formed registry can have *)
+Lemma entry_wfb_cases t :
+  entry_wfb t = true ->
+  (is_composite_or_variant (t_def t) = true /\ def_fields_okb (t_def t) = true /\
+   ((exists i, t_path t = [i] /\ existsb (String.eqb i) prelude_names = true /\
+               (String.eqb i "Cow" = true -> first_param_typed t = true)) \/
+    (exists a b l, t_path t = a :: b :: l /\ forallb ident_okb (t_path t) = true /\
+                   String.eqb (last (t_path t) "") "Cow" = false)))
+  \/ (is_composite_or_variant (t_def t) = false /\ t_path t = [] /\ no256_defb t = true).
+Proof.
+  unfold entry_wfb, no256_defb.
+  assert (Hcv : forall b : bool,
+    match t_path t with
+    | [] => false
+    | [i] => existsb (String.eqb i) prelude_names && (negb (String.eqb i "Cow") || first_param_typed t)
+    | p => forallb ident_okb p && negb (String.eqb (last p "") "Cow")
+    end && b = true ->
+    b = true /\
+    ((exists i, t_path t = [i] /\ existsb (String.eqb i) prelude_names = true /\
+               (String.eqb i "Cow" = true -> first_param_typed t = true)) \/
+    (exists a b l, t_path t = a :: b :: l /\ forallb ident_okb (t_path t) = true /\
+                   String.eqb (last (t_path t) "") "Cow" = false))).
+  { intros b H. apply andb_prop in H as [H Hb]. split; [exact Hb|].
+    destruct (t_path t) as [|a [|b' l]]; [discriminate| |].
+    - left. exists a. apply andb_prop in H as [H1 H2]. split; [reflexivity|]. split; [exact H1|].
+      intros E. rewrite E in H2. cbn [negb orb] in H2. exact H2.
+    - right. exists a, b', l. apply andb_prop in H as [H1 H2]. split; [reflexivity|]. split; [exact H1|].
+      apply negb_true_iff in H2. exact H2. }
+  assert (Hnp : match t_path t with [] => true | _ => false end = true -> t_path t = []).
+  { destruct (t_path t); [reflexivity|discriminate]. }
+  destruct (t_def t) as [fs|vs|e|len e|es|p|e|store order]; intros H; cbn [is_composite_or_variant].
+  - left. split; [reflexivity|]. apply Hcv. exact H.
+  - left. split; [reflexivity|]. apply Hcv. exact H.
+  - right. auto.
+  - right. auto.
+  - right. auto.
+  - right. split; [reflexivity|]. destruct p; try discriminate; auto.
+  - right. auto.
+  - right. auto.
+Qed.
+
+Lemma is_cow_path_ident p :
+  is_cow (path_ident p) = match p with [] => false | _ => String.eqb (last p "") "Cow" end.
+Proof. destruct p; reflexivity. Qed.
+
+Lemma entry_wfb_resolvable t : entry_wfb t = true -> resolvable_entryb t = true.
+Proof.
+  intros H. unfold resolvable_entryb. rewrite cow_okb_eq, is_cow_path_ident. unfold path_okb.
+  destruct (entry_wfb_cases t H) as [(Hcv & _ & [(i & Hp & Hpre & Hcow)|(a & b & l & Hp & Hid & Hcow)])
+                                    |(Hcv & Hp & H256)].
+  - assert (E256 : no256_defb t = true).
+    { unfold no256_defb. destruct (t_def t); try reflexivity; discriminate. }
+    rewrite E256, Hp. cbn [last].
+    destruct (String.eqb i "Cow") eqn:E.
+    + rewrite (Hcow eq_refl). destruct (t_def t); try discriminate; rewrite Hpre; reflexivity.
+    + destruct (t_def t); try discriminate; rewrite Hpre; reflexivity.
+  - assert (E256 : no256_defb t = true).
+    { unfold no256_defb. destruct (t_def t); try reflexivity; discriminate. }
+    rewrite E256. rewrite Hp in Hid, Hcow |- *. rewrite Hcow.
+    assert (Hlex : forallb ident_lexb (a :: b :: l) = true).
+    { eapply forallb_impl; [exact ident_okb_lexb|exact Hid]. }
+    destruct (t_def t); try discriminate; rewrite Hlex; reflexivity.
+  - rewrite H256, Hp. destruct (t_def t); try discriminate; reflexivity.
+Qed.
+
+Lemma entry_wfb_item t : entry_wfb t = true -> item_entryb t = true.
+Proof.
+  intros H. unfold item_entryb.
+  destruct (entry_wfb_cases t H) as [(Hcv & Hf & [(i & Hp & Hpre & _)|(a & b & l & Hp & Hid & _)])
+                                    |(Hcv & _ & _)].
+  - rewrite Hf, Hp. cbn [forallb]. rewrite (prelude_name_okb i Hpre).
+    destruct (t_def t); reflexivity.
+  - rewrite Hf. rewrite Hp in Hid |- *. rewrite Hid. destruct (t_def t); reflexivity.
+  - destruct (t_def t); try discriminate; reflexivity.
+Qed.
+
+Lemma entry_wfb_flat t : entry_wfb t = true -> flat_entryb t = true.
+Proof.
+  intros H. unfold flat_entryb.
+  destruct (entry_wfb_cases t H) as [(_ & _ & [(i & Hp & Hpre & _)|(a & b & l & Hp & Hid & _)])
+                                    |(_ & Hp & _)].
+  - rewrite Hp. cbn [forallb]. rewrite (prelude_name_okb i Hpre). reflexivity.
+  - exact Hid.
+  - rewrite Hp. reflexivity.
+Qed.
+
+Lemma supportedb_settings_ok r s : supportedb r s = true -> settings_ok r s.
+Proof.
+  unfold supportedb. intros H. apply andb_prop in H as [H _]. apply andb_prop in H as [Hc Hb].
+  split.
+  - intros id t e Hr Ed. unfold compact_okb in Hc. destruct (s_compact s); [discriminate|].
+    apply negb_true_iff in Hc. destruct (resolve_In _ _ _ Hr) as (i & Hin).
+    assert (Hx : has_compact r = true).
+    { unfold has_compact. apply existsb_exists. exists (i, t). split; [exact Hin|]. cbn [snd].
+      rewrite Ed. reflexivity. }
+    congruence.
+  - intros id t a b Hr Ed. unfold bits_okb in Hb. destruct (s_bits s); [discriminate|].
+    apply negb_true_iff in Hb. destruct (resolve_In _ _ _ Hr) as (i & Hin).
+    assert (Hx : has_bitseq r = true).
+    { unfold has_bitseq. apply existsb_exists. exists (i, t). split; [exact Hin|]. cbn [snd].
+      rewrite Ed. reflexivity. }
+    congruence.
+Qed.
+
+(** ** [rank_ok] constructs a rank function *)
+Inductive ranked_list (r : registry) : list N -> Prop :=
+| rl_nil : ranked_list r []
+| rl_cons i tl t :
+    ranked_list r tl -> ~ In i tl -> resolve r i = Some t ->
+    (forall c, In c (nonfield_ids t) -> In c tl) -> ranked_list r (i :: tl).
+
+Lemma mem_N_In x l : mem_N x l = true <-> In x l.
+Proof.
+  unfold mem_N. rewrite existsb_exists. split.
+  - intros (y & Hy & E). apply N.eqb_eq in E. subst. exact Hy.
+  - intros H. exists x. split; [exact H|apply N.eqb_refl].
+Qed.
+
+Lemma combine_ids_resolve {A} (i : N) (e : A) : forall (l : list A) start,
+  In (i, e) (combine (map N.of_nat (seq start (List.length l))) l) ->
+  exists k, i = N.of_nat (start + k) /\ nth_error l k = Some e.
+Proof.
+  induction l as [|x l IH]; intros start H; cbn [List.length seq map combine] in H; [destruct H|].
+  destruct H as [H|H].
+  - inversion H; subst. exists 0%nat. split; [f_equal; lia|reflexivity].
+  - destruct (IH _ H) as (k & Hk & Hn). exists (S k). split; [rewrite Hk; f_equal; lia|exact Hn].
+Qed.
+
+Lemma combine_reg_resolve r i e : In (i, e) (combine (reg_ids r) r) -> resolve r i = Some (snd e).
+Proof.
+  unfold reg_ids. intros H. destruct (combine_ids_resolve i e r 0%nat H) as (k & Hk & Hn).
+  unfold resolve. subst i. rewrite Nat2N.id. cbn [plus] in Hn |- *. rewrite Hn. destruct e; reflexivity.
+Qed.
+
+Lemma rank_step_ranked r acc ie :
+  In ie (combine (reg_ids r) r) -> ranked_list r acc -> ranked_list r (rank_step acc ie).
+Proof.
+  destruct ie as [i e]. intros Hin Hacc. unfold rank_step.
+  destruct (mem_N i acc) eqn:Em; [exact Hacc|].
+  destruct (forallb (fun c => mem_N c acc) (nonfield_ids (snd e))) eqn:Ef; [|exact Hacc].
+  apply rl_cons with (t := snd e).
+  - exact Hacc.
+  - intros Hi. apply mem_N_In in Hi. congruence.
+  - apply combine_reg_resolve. exact Hin.
+  - intros c Hc. rewrite forallb_forall in Ef. apply mem_N_In. apply Ef. exact Hc.
+Qed.
+
+Lemma fold_rank_step_ranked r : forall l acc,
+  (forall ie, In ie l -> In ie (combine (reg_ids r) r)) ->
+  ranked_list r acc -> ranked_list r (fold_left rank_step l acc).
+Proof.
+  induction l as [|ie l IH]; intros acc Hl Hacc; cbn [fold_left]; [exact Hacc|].
+  apply IH.
+  - intros x Hx. apply Hl. right; exact Hx.
+  - apply rank_step_ranked; [apply Hl; left; reflexivity|exact Hacc].
+Qed.
+
+Lemma rank_iter_ranked r : forall k acc, ranked_list r acc -> ranked_list r (rank_iter r k acc).
+Proof.
+  induction k as [|k IH]; intros acc Hacc; cbn [rank_iter]; [exact Hacc|].
+  apply IH. unfold rank_round. apply fold_rank_step_ranked; [auto|exact Hacc].
+Qed.
+
+Fixpoint pos_rank (l : list N) (i : N) : nat :=
+  match l with
+  | [] => 0
+  | x :: tl => if N.eqb x i then List.length tl else pos_rank tl i
+  end.
+
+Lemma pos_rank_lt l : forall i, In i l -> pos_rank l i < List.length l.
+Proof.
+  induction l as [|x tl IH]; intros i Hi; [destruct Hi|]. cbn [pos_rank List.length].
+  destruct (N.eqb x i) eqn:E; [lia|].
+  destruct Hi as [Hi|Hi]; [subst; rewrite N.eqb_refl in E; discriminate|].
+  specialize (IH _ Hi). lia.
+Qed.
+
+Lemma ranked_list_closed r l :
+  ranked_list r l -> forall i t c, In i l -> resolve r i = Some t -> In c (nonfield_ids t) -> In c l.
+Proof.
+  induction 1 as [|x tl t0 Htl IH Hnx Hx Hch]; intros i t c Hi Ht Hc; [destruct Hi|].
+  destruct Hi as [Hi|Hi].
+  - subst x. rewrite Hx in Ht. inversion Ht; subst. right. apply Hch. exact Hc.
+  - right. eapply IH; eauto.
+Qed.
+
+Lemma ranked_list_decreases r l :
+  ranked_list r l -> forall i t c, In i l -> resolve r i = Some t -> In c (nonfield_ids t) ->
+  pos_rank l c < pos_rank l i.
+Proof.
+  induction 1 as [|x tl t0 Htl IH Hnx Hx Hch]; intros i t c Hi Ht Hc; [destruct Hi|].
+  cbn [pos_rank].
+  destruct (N.eqb x i) eqn:E.
+  - apply N.eqb_eq in E. subst x. rewrite Hx in Ht. inversion Ht; subst.
+    pose proof (Hch _ Hc) as Hct.
+    destruct (N.eqb i c) eqn:E2; [apply N.eqb_eq in E2; subst; contradiction|].
+    apply pos_rank_lt. exact Hct.
+  - destruct Hi as [Hi|Hi]; [subst; rewrite N.eqb_refl in E; discriminate|].
+    pose proof (ranked_list_closed r tl Htl _ _ _ Hi Ht Hc) as Hct.
+    destruct (N.eqb x c) eqn:E2; [apply N.eqb_eq in E2; subst; contradiction|].
+    eapply IH; eauto.
+Qed.
+
+Lemma ranked_list_NoDup r l : ranked_list r l -> NoDup l.
+Proof. induction 1; constructor; assumption. Qed.
+
+Lemma ranked_list_in_reg r l : ranked_list r l -> forall i, In i l -> in_reg r i.
+Proof.
+  induction 1 as [|x tl t0 Htl IH Hnx Hx Hch]; intros i Hi; [destruct Hi|].
+  destruct Hi as [Hi|Hi]; [subst; eapply resolve_some_in_reg; eauto|auto].
+Qed.
+
+Lemma in_reg_ids r i : in_reg r i <-> In i (reg_ids r).
+Proof.
+  unfold in_reg, reg_ids. rewrite in_map_iff. split.
+  - intros H. exists (N.to_nat i). split; [apply N2Nat.id|]. apply in_seq. lia.
+  - intros (k & Hk & Hin). apply in_seq in Hin. lia.
+Qed.
+
+Theorem rank_ok_sound r : rank_ok r = true -> exists rank, ranked r rank.
+Proof.
+  unfold rank_ok. intros H. apply Nat.eqb_eq in H.
+  set (l := rank_iter r (List.length r) []) in *.
+  assert (Hl : ranked_list r l) by (apply rank_iter_ranked; constructor).
+  assert (Hall : forall i, in_reg r i -> In i l).
+  { intros i Hi. apply in_reg_ids in Hi.
+    apply (@NoDup_length_incl N l (reg_ids r) (ranked_list_NoDup _ _ Hl)); [| |exact Hi].
+    - unfold reg_ids. rewrite map_length, seq_length. lia.
+    - intros x Hx. apply in_reg_ids. eapply ranked_list_in_reg; eauto. }
+  exists (pos_rank l). split.
+  - intros id t c Hr Hc. eapply ranked_list_decreases; eauto.
+    apply Hall. eapply resolve_some_in_reg; eauto.
+  - intros id Hid. rewrite <- H. apply pos_rank_lt. apply Hall. exact Hid.
+Qed.
+
+Theorem wf_generable r s :
+  wf_regb r = true -> supportedb r s = true -> exists rank, generable r s rank.
+Proof.
+  unfold wf_regb. intros H Hs.
+  apply andb_prop in H as [H He]. apply andb_prop in H as [H Hr]. apply andb_prop in H as [Hi Hc].
+  destruct (rank_ok_sound r Hr) as (rank & Hrank). exists rank.
+  pose proof (forallb_entries_ok entry_wfb r He) as Hent.
+  split; [exact Hi|]. split; [|split].
+  - split; [apply closed_reg_closed; exact Hc|]. split; [exact Hrank|]. split.
+    + intros id t Ht. apply entry_wfb_resolvable. eapply Hent; eauto.
+    + apply supportedb_settings_ok; exact Hs.
+  - intros id t Ht. apply entry_wfb_item. eapply Hent; eauto.
+  - intros id t Ht. apply entry_wfb_flat. eapply Hent; eauto.
+Qed.
+
+(** ** single faults (C10) *)
+Lemma is_cow_false o : o <> Some "Cow" -> is_cow o = false.
+Proof.
+  destruct o as [nm|]; [|reflexivity]. intros H. cbn [is_cow]. apply String.eqb_neq. congruence.
+Qed.
+
+Section Faults.
+  Variable r : registry.
+  Variable s : settings.
+
+  Lemma fault_missing n id is_field parents orig :
+    resolve r id = None -> find_parent parents id orig = None ->
+    resolve_rec r s (S n) id is_field parents orig = Err (ETypeNotFound id).
+  Proof.
+    intros Hr Hf. rewrite resolve_rec_S, Hf. unfold resolve_type. rewrite Hr. reflexivity.
+  Qed.
+
+  Lemma fault_compact n id is_field parents orig t e ps i :
+    find_parent parents id orig = None -> resolve r id = Some t ->
+    path_ident (t_path t) <> Some "Cow" ->
+    mapM (fun c => resolve_rec r s n c false parents None) (param_ids t) = Ok ps ->
+    t_def t = TDCompact e -> resolve_rec r s n e false parents None = Ok i ->
+    s_compact s = None ->
+    resolve_rec r s (S n) id is_field parents orig = Err ECompactPathNone.
+  Proof.
+    intros Hf Hr Hc Hps Hd Hi Hs. rewrite resolve_rec_S, Hf. unfold resolve_type. rewrite Hr. cbn [bind].
+    rewrite cow_step_eq, (is_cow_false _ Hc). cbn [bind]. rewrite Hps. cbn [bind].
+    unfold resolve_def. rewrite Hd, Hi. cbn [bind]. rewrite Hs. reflexivity.
+  Qed.
+
+  Lemma fault_bits n id is_field parents orig t store order ps :
+    find_parent parents id orig = None -> resolve r id = Some t ->
+    path_ident (t_path t) <> Some "Cow" ->
+    mapM (fun c => resolve_rec r s n c false parents None) (param_ids t) = Ok ps ->
+    t_def t = TDBitSeq store order -> s_bits s = None ->
+    resolve_rec r s (S n) id is_field parents orig = Err EBitsPathNone.
+  Proof.
+    intros Hf Hr Hc Hps Hd Hs. rewrite resolve_rec_S, Hf. unfold resolve_type. rewrite Hr. cbn [bind].
+    rewrite cow_step_eq, (is_cow_false _ Hc). cbn [bind]. rewrite Hps. cbn [bind].
+    unfold resolve_def. rewrite Hd, Hs. reflexivity.
+  Qed.
+End Faults.
